@@ -31,6 +31,7 @@ LEAVES = {
     "github.com/mit-pdos/gokv/time": "time.Stamp()",
     "github.com/tchajed/marshal": "uint64(len(marshal.NewEnc(8).Finish()))",
     "example.org/go-journal.v2/util": "util.F()",
+    "example.org/other/util": "util.F()",
     "example.org/go-journal.v2/trusted_lib": "trusted_lib.F()",
     "example.org/go-journal.v2/wal-2.x": "wal.F()",
     "example.org/go-journal.v2/dot.ted": "ted.F()",
@@ -156,6 +157,10 @@ def scenarios(seed, tier):
         if grove_uses_disk:
             graph["github.com/mit-pdos/gokv/grove_ffi"] = ["github.com/goose-lang/goose/machine/disk"]
         pkgs = {pdir: pkg_source(pname, files_imports)}
+        if rnd.random() < 0.3:
+            # one declaration goose cannot translate: -ignore-errors still writes the file, with the same header and footer
+            f0 = sorted(pkgs[pdir])[0]
+            pkgs[pdir][f0] += "\nfunc Untranslatable(s []uint64) []uint64 {\n\treturn s[0:1:2]\n}\n"
         for hd, imps in helpers.items():
             hname = hd.split("/")[-1].replace("-", "_").replace(".", "_")
             src = pkg_source(hname, [imps])
